@@ -1,6 +1,7 @@
 import Sigc.SlotGLemmasFrame
 import Sigc.SlotGLemmasBlock
 import Sigc.SlotGLemmasFuel
+import Sigc.SlotGLemmasInval
 /-!
   # SlotG — object graphs among slot variables (C06, C12, C04/C15 flavour)
 
@@ -11,7 +12,8 @@ import Sigc.SlotGLemmasFuel
   enumerated.  Lemmas: `Sigc/SlotGLemmas*.lean`.
 
   * (a) `wf_reachable`, `no_dangling`, `no_fuel_error` — the well-formedness invariant of every reachable state
-    (C06: no dangling pointer in either direction);
+    (C06: no dangling pointer in either direction); `invalidated_holds_no_functor` (C07: an invalidated
+    representation has destroyed its functor);
   * (b) `block_returns_previous` … `blocked_or_empty_callS` — blocking (C12) and how the four copy/move operations
     transfer `blocked_` (C15);
   * (c) `connected_iff`, `connected_stays`, `connected_false_forever`, `conn_false_after_*` — a connection made from
@@ -40,19 +42,21 @@ theorem wf_reachable (ops : List Op) : WF (run ops) :=
   1. a connection is null or points to a live slot variable whose *current* representation exists and carries the
      registration of exactly this connection, once;
   2. every registration on a representation belongs to a live connection that points to the variable holding it;
-  3. every `parent_` points to a live representation, whose functor refers to the variable holding the child;
+  3. every `parent_` points to a live representation, whose functor refers to (`sref`) or binds by value (`nest`)
+     the variable holding the child;
   4. every `rep_` points to a live representation, no two variables share one, every representation is held;
   5. a representation whose functor refers to a trackable is registered on that (live) trackable, exactly once;
   6. a trackable holds no entry of a dead representation or of one that does not refer to it, no nulled entry,
      and is not clearing;
-  7. a functor that refers to / owns a slot variable refers to / owns a live one. -/
+  7. a functor that refers to / owns a slot variable refers to / owns a live one (one of the program's), and a
+     functor that binds a slot by value holds a live anonymous variable of its own (`anonBase + r`). -/
 theorem no_dangling (ops : List Op) :
     let s := run ops
     (∀ c v, s.conns c = some (some v) →
       ∃ V r R, s.slots v = some V ∧ V.rep = some r ∧ s.reps r = some R ∧ c ∈ R.cbs ∧ R.cbs.Nodup) ∧
     (∀ r R c, s.reps r = some R → c ∈ R.cbs → ∃ v, s.conns c = some (some v) ∧ repOf s v = some r) ∧
     (∀ r R p, s.reps r = some R → R.parent = some p →
-      ∃ P fid v, s.reps p = some P ∧ P.fn = some (.sref fid v) ∧ repOf s v = some r) ∧
+      ∃ P f v, s.reps p = some P ∧ P.fn = some f ∧ f.ref = some v ∧ repOf s v = some r) ∧
     ((∀ v r, repOf s v = some r → ∃ R, s.reps r = some R) ∧
       (∀ v1 v2 r, repOf s v1 = some r → repOf s v2 = some r → v1 = v2) ∧
       (∀ r R, s.reps r = some R → ∃ v, repOf s v = some r)) ∧
@@ -60,20 +64,23 @@ theorem no_dangling (ops : List Op) :
       ∃ T, s.trks t = some T ∧ (r, true) ∈ T.entries ∧ (T.entries.map Prod.fst).Nodup) ∧
     (∀ t T r b, s.trks t = some T → (r, b) ∈ T.entries →
       b = true ∧ T.clearing = false ∧ ∃ R f, s.reps r = some R ∧ R.fn = some f ∧ f.trk = some t) ∧
-    (∀ r R fid v, s.reps r = some R → R.fn = some (.sref fid v) → ∃ V, s.slots v = some V) ∧
-    (∀ r R fid v t, s.reps r = some R → R.fn = some (.own fid v t) → ∃ V, s.slots v = some V) := by
+    (∀ r R fid v, s.reps r = some R → R.fn = some (.sref fid v) → v < anonBase ∧ ∃ V, s.slots v = some V) ∧
+    (∀ r R fid v t, s.reps r = some R → R.fn = some (.own fid v t) → v < anonBase ∧ ∃ V, s.slots v = some V) ∧
+    (∀ r R fid v d, s.reps r = some R → R.fn = some (.nest fid v d) →
+      v = anonBase + r ∧ ∃ V, s.slots v = some V) := by
   intro s
   have hw : WF s := wf_reachable ops
   have h := hw.inv
-  refine ⟨?_, fun r R c hR hm => hw.cbsConn' hR hm, ?_, ⟨h.repAlive, h.repUniq, hw.held⟩, ?_, ?_, ?_, h.ownOk⟩
+  refine ⟨?_, fun r R c hR hm => hw.cbsConn' hR hm, ?_, ⟨h.repAlive, h.repUniq, hw.held⟩, ?_, ?_, ?_, h.ownOk,
+    h.nestOk⟩
   · intro c v hc
     obtain ⟨r, R, hr, hR, hm⟩ := hw.connReg' hc
     obtain ⟨V, hV, hVr⟩ := repOf_eq.mp hr
     exact ⟨V, r, R, hV, hVr, hR, hm, h.cbsNodup r R hR⟩
   · intro r R p hR hp
     obtain ⟨v, hv⟩ := hw.held r R hR
-    obtain ⟨P, fid, hP, hPf⟩ := h.parentOk r R p v hR hp hv
-    exact ⟨P, fid, v, hP, hPf, hv⟩
+    obtain ⟨P, f, hP, hPf, hfr⟩ := h.parentOk r R p v hR hp hv
+    exact ⟨P, f, v, hP, hPf, hfr, hv⟩
   · intro r R f t hR hf ht
     obtain ⟨T, hT, hm⟩ := h.trkReg r R f t hR hf ht
     exact ⟨T, hT, hm, h.trkNodup t T hT⟩
@@ -86,16 +93,22 @@ theorem no_dangling (ops : List Op) :
     subst hb
     exact ⟨rfl, hcl, h.trkEnt t T r hT hm⟩
   · intro r R fid v hR hf
-    exact (h.refOk r R fid v hR hf).1
+    exact ⟨(h.refOk r R fid v hR hf).1, (h.refOk r R fid v hR hf).2.1⟩
 
 /-- non-vacuity: a program whose final state has a live connection, a parent link, a trackable registration and an
     owned variable (so every clause of `no_dangling` speaks about something) -/
 def exGraph : List Op :=
-  [.newT 1, .mkS 1 (.mem 1 1), .mkS 2 (.sref 2 1), .connS 1 1, .mkS0 3, .mkS 4 (.own 3 3 none)]
+  [.newT 1, .mkS 1 (.mem 1 1), .mkS 2 (.sref 2 1), .connS 1 1, .mkS0 3, .mkS 4 (.own 3 3 none),
+   .mkS 5 (.nest 4 1 0)]
 
 example : (run exGraph).conns 1 = some (some 1) ∧ repOf (run exGraph) 1 = some 0 ∧
     ((run exGraph).reps 0).map (·.parent) = some (some 1) ∧ ((run exGraph).reps 0).map (·.cbs) = some [1] ∧
-    ((run exGraph).trks 1).map (·.entries) = some [(0, true)] ∧ ownedBy (run exGraph) 3 = true := by decide
+    ((run exGraph).trks 1).map (·.entries) = some [(0, true), (4, true)] ∧ ownedBy (run exGraph) 3 = true ∧
+    -- `S5 = bind(F4, copy of S1)`: representation 3 binds the anonymous variable `anonBase + 3`, whose
+    -- representation 4 (a clone of S1's: registered on the trackable too) has 3 as parent
+    ((run exGraph).reps 3).map (·.fn) = some (some (.nest 4 (anonBase + 3) 1)) ∧
+    repOf (run exGraph) (anonBase + 3) = some 4 ∧
+    ((run exGraph).reps 4).map (·.parent) = some (some 3) := by decide
 
 /-- **F10, the situation itself.**  After an assignment of any kind to a slot variable (`asgS`, `masgS`, `setS`) —
     also when deleting the old representation destroys its parent, because the old representation *is* its own
@@ -106,12 +119,13 @@ theorem exchange_no_dead_parent {s : State} (hw : WF s) (op : Op)
     (_hop : (∃ d x, op = .asgS d x) ∨ (∃ d x, op = .masgS d x) ∨ (∃ d f, op = .setS d f))
     (hc : check s op = none) (he : (apply op s).err = false) :
     ∀ r R p, (apply op s).reps r = some R → R.parent = some p →
-      ∃ P fid v, (apply op s).reps p = some P ∧ P.fn = some (.sref fid v) ∧ repOf (apply op s) v = some r := by
+      ∃ P f v, (apply op s).reps p = some P ∧ P.fn = some f ∧ f.ref = some v ∧
+        repOf (apply op s) v = some r := by
   have hw' := apply_wf hw op hc he
   intro r R p hR hp
   obtain ⟨v, hv⟩ := hw'.held r R hR
-  obtain ⟨P, fid, hP, hPf⟩ := hw'.inv.parentOk r R p v hR hp hv
-  exact ⟨P, fid, v, hP, hPf, hv⟩
+  obtain ⟨P, f, hP, hPf, hfr⟩ := hw'.inv.parentOk r R p v hR hp hv
+  exact ⟨P, f, v, hP, hPf, hfr, hv⟩
 
 /-- non-vacuity: the F10 program `s = F(); s = bind(g, std::ref(s)); s = F();` — before the third assignment the
     representation of `S1` is its own parent, the assignment is performed (not refused), deleting the old
@@ -137,34 +151,37 @@ example : repOf exF10own 1 = some 2 ∧ repOf exF10own 2 = some 1 ∧
     well-formed, whatever the representation of `d` stores: also the functor that keeps `d` itself alive.  The old
     representation is freed (exactly once: representation identities are never reused and it is gone), and `d`,
     if it still exists, holds no representation.  None of these operations is refused on live variables. -/
-theorem delete_rep_self_owned_safe {s : State} (hw : WF s) (d : Nat)
+theorem delete_rep_self_owned_safe {s : State} (hw : WF s) (d : Nat) (hnm : d < anonBase)
     (he : (deleteRepWithCheck d s).err = false) :
     (WF (deleteRepWithCheck d s) ∧
       (∀ r, repOf s d = some r → (deleteRepWithCheck d s).reps r = none) ∧
       (∀ D', (deleteRepWithCheck d s).slots d = some D' → D'.rep = none)) ∧
     ((s.slots d).isSome = true → check s (.clrS d) = none ∧
       (repOf s d ≠ none → apply (.clrS d) s = deleteRepWithCheck d s)) ∧
-    (∀ x, (s.slots d).isSome = true → (s.slots x).isSome = true → repOf s d ≠ repOf s x →
+    (∀ x, x < anonBase → (s.slots d).isSome = true → (s.slots x).isSome = true → repOf s d ≠ repOf s x →
       emptyVar s x = true →
       check s (.asgS d x) = none ∧ check s (.masgS d x) = none ∧
       apply (.asgS d x) s = deleteRepWithCheck d s ∧ apply (.masgS d x) s = deleteRepWithCheck d s) := by
-  refine ⟨deleteRepWithCheck_spec hw d he, ?_, ?_⟩
+  have hnd : decide (d < anonBase) = true := by simpa using hnm
+  refine ⟨deleteRepWithCheck_spec hw d hnm he, ?_, ?_⟩
   · intro hd
     have hdd : deadS s d = false := by unfold deadS; cases hx : s.slots d <;> simp_all
-    refine ⟨by simp [check, hdd], ?_⟩
+    refine ⟨by simp [check, check0, Op.named, Op.names, hdd, hnd], ?_⟩
     intro hr
     simp only [apply]
     cases hq : repOf s d with
     | none => exact absurd hq hr
     | some q => rfl
-  · intro x hd hx hne hemp
+  · intro x hnx hd hx hne hemp
+    have hnx' : decide (x < anonBase) = true := by simpa using hnx
     have hdd : deadS s d = false := by unfold deadS; cases h : s.slots d <;> simp_all
     have hdx : deadS s x = false := by unfold deadS; cases h : s.slots x <;> simp_all
     have hbeq : (repOf s d == repOf s x) = false := by simpa using hne
     obtain ⟨X, hX⟩ : ∃ X, s.slots x = some X := by cases h : s.slots x <;> simp_all
     have hXr : repOf s x = X.rep := by simp [repOf, hX]
     have hbeq' : (repOf s d == X.rep) = false := by rw [← hXr]; exact hbeq
-    refine ⟨by simp [check, hdd, hdx, hbeq], by simp [check, hdd, hdx, hbeq], ?_, ?_⟩ <;>
+    refine ⟨by simp [check, check0, Op.named, Op.names, hdd, hdx, hbeq, hnd, hnx'],
+      by simp [check, check0, Op.named, Op.names, hdd, hdx, hbeq, hnd, hnx'], ?_, ?_⟩ <;>
       simp [apply, hX, hbeq', hemp]
 
 /-- non-vacuity: the F12 program — `S1` is kept alive by the functor it stores; `*S1 = slot()` is performed, the
@@ -176,6 +193,51 @@ example : ownedBy exF12 1 = true ∧ repOf exF12 1 = some 0 ∧ check exF12 (.cl
     (apply (.clrS 1) exF12).reps 0 = none ∧ liveCount (apply (.clrS 1) exF12) none = 0 ∧
     check exF12 (.asgS 1 2) = none ∧ (apply (.asgS 1 2) exF12).slots 1 = none ∧
     (apply (.masgS 1 2) exF12).reps 0 = none := by decide
+
+/-- **C07, an invalidated representation has destroyed its functor.**  In every reachable state a slot variable
+    whose representation is invalid (`call_ == nullptr`: `empty()` is true although `rep_` is set) stores no
+    functor any more — however it got invalidated: because a trackable its functor refers to died, because the
+    variable its functor refers to or the slot it binds by value was invalidated (`notify_slot_rep_invalidated`
+    up the `parent_` chain, any number of levels), or because it was destroyed — with one exception, which is the
+    library's documented behaviour: `disconnect()` called on this very representation by name
+    (`slot_base::disconnect()`, `connection::disconnect()`) only tells the parent and keeps the functor until the
+    slot is destroyed or reassigned.  Consequently the resources the functor holds (bound slots, owned variables,
+    the trackable registrations) are released at invalidation time, not when the variable dies. -/
+theorem invalidated_holds_no_functor (ops : List Op) :
+    ∀ v r R, repOf (run ops) v = some r → (run ops).reps r = some R → R.call = false →
+      R.fn = none ∨ disconnectedBy State.init ops r = true := by
+  intro v r R _ hR hc
+  have := NF.foldl_nf ops State.init (fun _ => False) (by intro r R hR; simp [State.init] at hR) r R hR hc
+  rcases this with g | g | g
+  · exact .inl g
+  · exact absurd g id
+  · exact .inr g
+
+/-- non-vacuity, the graph of mutant R6_C07_seed2: `S1 = mem_fun(T1)`, `S2 = bind(F2, S1)` (a copy of `S1` by
+    value), `S3 = bind(F3, std::ref(S2))`; `delete T1` invalidates `S1` and the copy bound in `S2`'s functor, hence
+    `S2` (its parent), hence `S3`: all three representations are invalid **and hold no functor**, the bound copy
+    is gone, `live?` reports 0 for all three functor ids.  And the exemption is a real one: after
+    `S1.disconnect()` the representation of `S1` is invalid and still holds `F1`. -/
+def exC07 : List Op :=
+  [.newT 1, .mkS 1 (.mem 1 1), .mkS 2 (.nest 2 1 0), .mkS 3 (.sref 3 2)]
+
+example :
+    -- before: three valid slots, four functor copies (`F1` twice)
+    emptyVar (run exC07) 1 = false ∧ emptyVar (run exC07) 2 = false ∧ emptyVar (run exC07) 3 = false ∧
+    liveCount (run exC07) (some 1) = 2 ∧ liveCount (run exC07) (some 2) = 1 ∧
+    (run exC07).slots (anonBase + 1) = some ⟨some 2, false⟩ ∧
+    -- after `delete T1`
+    emptyVar (run (exC07 ++ [.delT 1])) 1 = true ∧ emptyVar (run (exC07 ++ [.delT 1])) 2 = true ∧
+    emptyVar (run (exC07 ++ [.delT 1])) 3 = true ∧
+    repOf (run (exC07 ++ [.delT 1])) 2 = some 1 ∧
+    ((run (exC07 ++ [.delT 1])).reps 1).map (·.fn) = some none ∧
+    ((run (exC07 ++ [.delT 1])).reps 3).map (·.fn) = some none ∧
+    (run (exC07 ++ [.delT 1])).slots (anonBase + 1) = none ∧
+    liveCount (run (exC07 ++ [.delT 1])) none = 0 ∧
+    disconnectedBy State.init (exC07 ++ [.delT 1]) 1 = false := by decide
+
+example : ((run [.mkS 1 (.fn 1), .discS 1]).reps 0).map (fun R => (R.call, R.fn)) = some (false, some (.fn 1)) ∧
+    disconnectedBy State.init [.mkS 1 (.fn 1), .discS 1] 0 = true := by decide
 
 /-! ## (b) blocking (C12) and the transfer of `blocked_` by the copy/move operations (C15) -/
 
@@ -307,7 +369,7 @@ theorem asgS_blocked (s : State) (d x : Nat) (D X : SVar) (hD : s.slots d = some
     -- (c) otherwise: the flag is copied, the source is untouched
     (repOf s d ≠ repOf s x → emptyVar s x = false →
       (∀ D', (apply (.asgS d x) s).slots d = some D' → D'.blocked = X.blocked ∧ D'.rep = some s.nextRep) ∧
-      (∀ w W', w ≠ d → (apply (.asgS d x) s).slots w = some W' → s.slots w = some W') ∧
+      (∀ w W', w ≠ d → w < anonBase → (apply (.asgS d x) s).slots w = some W' → s.slots w = some W') ∧
       (∀ X', x ≠ d → (apply (.asgS d x) s).slots x = some X' → X' = X)) :=
   asgS_blocked_lem s d x D X hD hX _h
 
@@ -340,7 +402,7 @@ theorem masgS_blocked (s : State) (d x : Nat) (D X : SVar) (hD : s.slots d = som
     -- (c1) clone branch: the flag is copied, the source keeps representation and flag
     (repOf s d ≠ repOf s x → emptyVar s x = false → hasParent s x = true →
       (∀ D', (apply (.masgS d x) s).slots d = some D' → D'.blocked = X.blocked ∧ D'.rep = some s.nextRep) ∧
-      (∀ w W', w ≠ d → (apply (.masgS d x) s).slots w = some W' → s.slots w = some W') ∧
+      (∀ w W', w ≠ d → w < anonBase → (apply (.masgS d x) s).slots w = some W' → s.slots w = some W') ∧
       (∀ X', x ≠ d → (apply (.masgS d x) s).slots x = some X' → X' = X)) ∧
     -- (c2) really-move branch: flag and representation move, the source becomes the default slot
     (repOf s d ≠ repOf s x → emptyVar s x = false → hasParent s x = false →
@@ -630,12 +692,26 @@ theorem live_count_spec (s : State) (fid : Nat) :
     `slot_rep::functor_`) until some slot of the cycle is emptied or a trackable its functor refers to dies; since
     the fix of F12 emptying (`clrS`) is always possible, which is what the teardown does -/
 theorem owned_has_owner (ops : List Op) (v : Nat) (ho : ownedBy (run ops) v = true) :
-    ∃ w r R fid t, repOf (run ops) w = some r ∧ (run ops).reps r = some R ∧ R.fn = some (.own fid v t) ∧
+    ∃ w r R f, repOf (run ops) w = some r ∧ (run ops).reps r = some R ∧ R.fn = some f ∧ f.owns = some v ∧
       ∃ V, (run ops).slots v = some V := by
   have hw := wf_reachable ops
-  obtain ⟨r, R, fid, t, hR, hf⟩ := (ownedBy_iff hw.inv.repBound v).mp ho
+  obtain ⟨r, R, f, hR, hf, hfo⟩ := (ownedBy_iff hw.inv.repBound v).mp ho
   obtain ⟨w, hw'⟩ := hw.held r R hR
-  exact ⟨w, r, R, fid, t, hw', hR, hf, hw.inv.ownOk r R fid v t hR hf⟩
+  refine ⟨w, r, R, f, hw', hR, hf, hfo, ?_⟩
+  cases f with
+  | own fid v' t =>
+    simp only [Fun.owns, Option.some.injEq] at hfo; subst hfo
+    exact (hw.inv.ownOk r R fid _ t hR hf).2
+  | nest fid v' d =>
+    simp only [Fun.owns, Option.some.injEq] at hfo; subst hfo
+    exact (hw.inv.nestOk r R fid _ d hR hf).2
+  | _ => simp [Fun.owns] at hfo
+
+-- functors that bind a slot by value: every copy of the outer slot clones the inner one
+example : liveCount (run [.mkS 1 (.fn 1), .mkS 2 (.nest 2 1 0), .cpS 3 2]) (some 1) = 3 ∧
+    liveCount (run [.mkS 1 (.fn 1), .mkS 2 (.nest 2 1 0), .cpS 3 2]) (some 2) = 2 ∧
+    liveCount (run [.mkS 1 (.fn 1), .mkS 2 (.nest 2 1 0), .cpS 3 2, .delS 2]) (some 1) = 2 ∧
+    ownedBy (run [.mkS 1 (.fn 1), .mkS 2 (.nest 2 1 0)]) (anonBase + 1) = true := by decide
 
 example : ownedBy (run [.mkS0 1, .setS 1 (.own 1 1 none)]) 1 = true ∧
     liveCount (run [.mkS0 1, .setS 1 (.own 1 1 none)]) (some 1) = 1 ∧
